@@ -2,8 +2,9 @@
    oracle/c01 and oracle/c02 share this model. *)
 Require Extraction.
 Require Import ExtrOcamlBasic.
-From Verif Require Import Common.Util Sched.Model Header.Rules Validation.Body.
+From Verif Require Import Common.Util Sched.Model Header.Rules Validation.Body Validation.Cache.
 Extraction Language OCaml.
 Extraction "../oracle/c01/model.ml"
   mkP mkCfg mkH mkC mkPV mkPO mkCtx mkTx mkRc mkB mkSR
-  validate_header validate_proposer schedule_ctx process pack_block adopt_all.
+  validate_header validate_proposer schedule_ctx process pack_block adopt_all
+  mkAC mkCE mkEv cands_walk pick new_candidates poa_proposers poa_step pget pos_leaders pos_step sget.
